@@ -224,7 +224,14 @@ Lemma load_ports_char_l W ps :
 Proof.
   intro Hn. induction ps as [|p r IH]; simpl; [split; [reflexivity|constructor]|].
   rewrite (find_binding_first_l _ _ Hn).
-  unfold has_b at 1 2, is_soap_port at 1 2, binding_of at 1 2 3 4.
+  assert (Hh : has_b W p =
+               match find (fun b => N.eqb (p_binding p) (b_name b)) (w_bindings W) with
+               | Some _ => true | None => false end) by reflexivity.
+  assert (Hi : is_soap_port W p =
+               match find (fun b => N.eqb (p_binding p) (b_name b)) (w_bindings W) with
+               | Some b => match b_soap b with Some _ => true | None => false end
+               | None => false end) by reflexivity.
+  rewrite Hh, Hi. clear Hh Hi.
   destruct (find (fun b => N.eqb (p_binding p) (b_name b)) (w_bindings W)) as [b|] eqn:Eb; simpl.
   - destruct (b_soap b) as [bst|] eqn:Es.
     + destruct (load_ports (w_tns W) (w_bindings W) r) as [l|].
@@ -318,7 +325,7 @@ Proof.
       destruct (pick s_name (s :: ss) ds) as [s'|], (sel ls_name (ls :: lss) ds) as [ls'|];
         simpl; try contradiction; [|reflexivity].
       destruct HR as [_ HR]. exact HR.
-    + simpl. rewrite ss_find_cons_l.
+    + cbn [bind]. rewrite ss_find_cons_l.
       pose proof (pick_rel_l _ s_name ls_name _ _ (KInt 0) HF (svc_rel_name W)) as HR.
       rewrite pick_first_l in HR.
       destruct (sel ls_name (ls :: lss) (KInt 0)) as [ls'|]; [|contradiction].
@@ -338,7 +345,7 @@ Proof.
       destruct (pick p_name (p :: pp) dp) as [p'|], (sel lp_name (lp :: lpp) dp) as [lp'|];
         simpl; try contradiction; [|reflexivity].
       destruct HR as [_ HR]. exact HR.
-    + simpl. rewrite ps_find_cons_l.
+    + cbn [bind]. rewrite ps_find_cons_l.
       set (k := match sub with Some k => k | None => KInt 0 end).
       pose proof (pick_rel_l _ p_name lp_name _ _ k HF (port_rel_name W)) as HR.
       destruct (pick p_name (p :: pp) k) as [p'|], (sel lp_name (lp :: lpp) k) as [lp'|];
@@ -454,7 +461,7 @@ Proof.
       * (* several services *)
         simpl length. simpl Nat.eqb. cbv iota.
         assert (HF' : Forall2 (svc_rel W) (s1 :: s2 :: ss) (l1 :: l2 :: lss))
-          by (repeat constructor; assumption).
+          by (constructor; [exact H1|constructor; [exact H2|exact HF]]).
         unfold ss_default_or_first in HR. unfold ss_ds in *.
         destruct (opt_service o) as [ds|] eqn:Eds.
         -- (* default service: the subscript selects a port *)
@@ -475,3 +482,517 @@ Proof.
               ** simpl eval. apply port_level_rel_l; assumption.
            ++ reflexivity.
 Qed.
+
+(* ------------------------------------------------------------------ *)
+(* corollaries of the refinement: unknown names and indexes            *)
+(* ------------------------------------------------------------------ *)
+
+Lemma route_loadable W o e : loadable W = true ->
+  route W o e = match e with
+  | [] => SNoCall
+  | Attr n :: rest =>
+      match the_service W o with inl r => r | inr s => attr_level W o s n rest end
+  | Item k :: rest =>
+      match w_services W with
+      | [] => SFail
+      | [only] => port_level W o only k rest
+      | _ =>
+          match opt_service o with
+          | Some _ => match the_service W o with inl r => r | inr s => port_level W o s k rest end
+          | None =>
+              match pick s_name (w_services W) k with
+              | None => SRaise ServiceNotFound
+              | Some s =>
+                  match rest with
+                  | [] => SNoCall
+                  | Attr n :: rest' => attr_level W o s n rest'
+                  | Item k' :: rest' => port_level W o s k' rest'
+                  end
+              end
+          end
+      end
+  end.
+Proof. intro H. unfold route. rewrite H. reflexivity. Qed.
+
+Lemma two_services {A} (l : list A) : (2 <= length l)%nat -> exists a b r, l = a :: b :: r.
+Proof. destruct l as [|a [|b r]]; simpl; try lia. eauto. Qed.
+
+(* An explicit service key that names nothing raises ServiceNotFound,
+   whatever follows it; so does a default service option naming nothing. *)
+Lemma unknown_service_raises_l : forall W o k rest,
+  wf W = true -> loadable W = true ->
+  (2 <= length (w_services W))%nat -> opt_service o = None ->
+  pick s_name (w_services W) k = None ->
+  run W o (Item k :: rest) = ORaise ServiceNotFound.
+Proof.
+  intros W o k rest Hwf Hl H2 Ho Hp. apply sat_raise_inv.
+  rewrite <- (select_correct_l W o (Item k :: rest) Hwf) at 1.
+  f_equal. rewrite (route_loadable _ _ _ Hl).
+  destruct (two_services _ H2) as [a [b [r E]]]. rewrite E in *. rewrite Ho, Hp. reflexivity.
+Qed.
+
+Lemma unknown_default_service_raises_l : forall W o ds n k rest,
+  wf W = true -> loadable W = true ->
+  opt_service o = Some ds -> pick s_name (w_services W) ds = None ->
+  w_services W <> [] ->
+  run W o (Attr n :: rest) = ORaise ServiceNotFound /\
+  ((2 <= length (w_services W))%nat -> run W o (Item k :: rest) = ORaise ServiceNotFound).
+Proof.
+  intros W o ds n k rest Hwf Hl Ho Hp Hne.
+  assert (Hs : the_service W o = inl (SRaise ServiceNotFound)).
+  { unfold the_service. destruct (w_services W) as [|a r] eqn:E; [congruence|].
+    rewrite Ho, Hp. reflexivity. }
+  split; [|intro H2]; apply sat_raise_inv.
+  - rewrite <- (select_correct_l W o (Attr n :: rest) Hwf) at 1.
+    f_equal. rewrite (route_loadable _ _ _ Hl). rewrite Hs. reflexivity.
+  - rewrite <- (select_correct_l W o (Item k :: rest) Hwf) at 1.
+    f_equal. rewrite (route_loadable _ _ _ Hl).
+    destruct (two_services _ H2) as [a [b [r E]]]. rewrite E in *.
+    rewrite Ho, Hs. reflexivity.
+Qed.
+
+(* A port key that names no SOAP port of the selected service raises
+   PortNotFound (explicit subscript, or the default port option). *)
+Lemma unknown_port_raises_l : forall W o ks s kp rest,
+  wf W = true -> loadable W = true ->
+  (2 <= length (w_services W))%nat -> opt_service o = None ->
+  pick s_name (w_services W) ks = Some s ->
+  soap_ports W s <> [] ->
+  pick p_name (soap_ports W s) (match opt_port o with Some dp => dp | None => kp end) = None ->
+  run W o (Item ks :: Item kp :: rest) = ORaise PortNotFound.
+Proof.
+  intros W o ks s kp rest Hwf Hl H2 Ho Hs Hne Hp. apply sat_raise_inv.
+  rewrite <- (select_correct_l W o (Item ks :: Item kp :: rest) Hwf) at 1.
+  f_equal. rewrite (route_loadable _ _ _ Hl).
+  destruct (two_services _ H2) as [a [b [r E]]]. rewrite E in *. rewrite Ho, Hs.
+  unfold port_level, the_port.
+  destruct (soap_ports W s) as [|p ps] eqn:Ep; [congruence|].
+  destruct (opt_port o); rewrite Hp; reflexivity.
+Qed.
+
+Lemma unknown_default_port_raises_l : forall W o ks s dp n rest,
+  wf W = true -> loadable W = true ->
+  (2 <= length (w_services W))%nat -> opt_service o = None ->
+  pick s_name (w_services W) ks = Some s ->
+  soap_ports W s <> [] -> opt_port o = Some dp ->
+  pick p_name (soap_ports W s) dp = None ->
+  run W o (Item ks :: Attr n :: rest) = ORaise PortNotFound.
+Proof.
+  intros W o ks s dp n rest Hwf Hl H2 Ho Hs Hne Hd Hp. apply sat_raise_inv.
+  rewrite <- (select_correct_l W o (Item ks :: Attr n :: rest) Hwf) at 1.
+  f_equal. rewrite (route_loadable _ _ _ Hl).
+  destruct (two_services _ H2) as [a [b [r E]]]. rewrite E in *. rewrite Ho, Hs.
+  unfold attr_level, the_port.
+  destruct (soap_ports W s) as [|p ps] eqn:Ep; [congruence|].
+  rewrite Hd, Hp. reflexivity.
+Qed.
+
+(* An operation name the port's binding does not declare raises
+   MethodNotFound, by attribute or by subscript, whatever follows. *)
+Lemma unknown_method_raises_l : forall W o ks s kp p b n st rest,
+  wf W = true -> loadable W = true ->
+  (2 <= length (w_services W))%nat -> opt_service o = None -> opt_port o = None ->
+  pick s_name (w_services W) ks = Some s ->
+  pick p_name (soap_ports W s) kp = Some p ->
+  binding_of W p = Some b ->
+  find (fun op => N.eqb n (o_name op)) (b_ops b) = None ->
+  st = Attr n \/ st = Item (KStr n) ->
+  run W o (Item ks :: Item kp :: st :: rest) = ORaise MethodNotFound.
+Proof.
+  intros W o ks s kp p b n st rest Hwf Hl H2 Ho Hop Hs Hp Hb Hf Hst. apply sat_raise_inv.
+  rewrite <- (select_correct_l W o (Item ks :: Item kp :: st :: rest) Hwf) at 1.
+  f_equal. rewrite (route_loadable _ _ _ Hl).
+  destruct (two_services _ H2) as [a [b' [r E]]]. rewrite E in *. rewrite Ho, Hs.
+  unfold port_level, the_port. rewrite Hop.
+  destruct (soap_ports W s) as [|p0 ps] eqn:Ep.
+  { destruct kp; simpl in Hp; try discriminate.
+    unfold pick in Hp. simpl in Hp.
+    destruct ((0 <=? z) && (z <? 0)); [destruct (Z.to_nat z); discriminate|].
+    destruct ((z <? 0) && (0 <=? z + 0)); [destruct (Z.to_nat (z + 0)); discriminate|discriminate]. }
+  rewrite Hp.
+  assert (Hsoap : is_soap_port W p = true).
+  { rewrite pick_sel_same_l in Hp. apply sel_in in Hp. rewrite <- Ep in Hp.
+    unfold soap_ports in Hp. apply filter_In in Hp. tauto. }
+  unfold is_soap_port in Hsoap. rewrite Hb in Hsoap.
+  assert (Hd : declared W o p n = SRaise MethodNotFound).
+  { unfold declared. rewrite Hb, Hf. destruct (b_soap b); [reflexivity|discriminate]. }
+  destruct Hst; subst st; simpl; rewrite Hd; destruct rest; reflexivity.
+Qed.
+
+(* The fully explicit expression reaches exactly the declared triple. *)
+Lemma explicit_pair_exact_l : forall W o ks s kp p b bst n op st,
+  wf W = true -> loadable W = true ->
+  (2 <= length (w_services W))%nat -> opt_service o = None -> opt_port o = None ->
+  pick s_name (w_services W) ks = Some s ->
+  pick p_name (soap_ports W s) kp = Some p ->
+  binding_of W p = Some b -> b_soap b = Some bst ->
+  find (fun op => N.eqb n (o_name op)) (b_ops b) = Some op ->
+  st = Attr n \/ st = Item (KStr n) ->
+  run W o [Item ks; Item kp; st] =
+  OSent (match opt_location o with Some l => l | None => p_loc p end)
+        (match o_action op with Some a => a | None => 0%N end)
+        (match (match o_style op with Some x => x | None => bst end) with
+         | Doc => (w_tns W, o_elem op)
+         | Rpc => (match o_ns op with Some ns => ns | None => w_tns W end, n)
+         end).
+Proof.
+  intros W o ks s kp p b bst n op st Hwf Hl H2 Ho Hop Hs Hp Hb Hbs Hf Hst. apply sat_route_inv.
+  rewrite <- (select_correct_l W o [Item ks; Item kp; st] Hwf) at 1.
+  f_equal. rewrite (route_loadable _ _ _ Hl).
+  destruct (two_services _ H2) as [a [b' [r E]]]. rewrite E in *. rewrite Ho, Hs.
+  unfold port_level, the_port. rewrite Hop.
+  destruct (soap_ports W s) as [|p0 ps] eqn:Ep.
+  { destruct kp; simpl in Hp; try discriminate.
+    unfold pick in Hp. simpl in Hp.
+    destruct ((0 <=? z) && (z <? 0)); [destruct (Z.to_nat z); discriminate|].
+    destruct ((z <? 0) && (0 <=? z + 0)); [destruct (Z.to_nat (z + 0)); discriminate|discriminate]. }
+  rewrite Hp.
+  assert (Hd : declared W o p n = SRoute
+        (match opt_location o with Some l => l | None => p_loc p end)
+        (match o_action op with Some a => a | None => 0%N end)
+        (match (match o_style op with Some x => x | None => bst end) with
+         | Doc => (w_tns W, o_elem op)
+         | Rpc => (match o_ns op with Some ns => ns | None => w_tns W end, n)
+         end)).
+  { unfold declared. rewrite Hb, Hbs, Hf. reflexivity. }
+  destruct Hst; subst st; simpl; rewrite Hd; reflexivity.
+Qed.
+
+(* With a single service the first subscript is a port key. *)
+Lemma single_service_subscript_is_port_l : forall W o s k rest,
+  wf W = true -> loadable W = true -> w_services W = [s] ->
+  sat (port_level W o s k rest) (run W o (Item k :: rest)) = true.
+Proof.
+  intros W o s k rest Hwf Hl Hs.
+  rewrite <- (select_correct_l W o (Item k :: rest) Hwf) at 1.
+  f_equal. rewrite (route_loadable _ _ _ Hl). rewrite Hs. reflexivity.
+Qed.
+
+(* ------------------------------------------------------------------ *)
+(* nothing is ever sent that the WSDL does not declare (no wf needed)  *)
+(* ------------------------------------------------------------------ *)
+
+(* m is the method of a declared (service, port, operation) triple *)
+Definition declared_method (W : wsdl) (m : method) : Prop :=
+  exists s p b bst op,
+    In s (w_services W) /\ In p (s_ports s) /\
+    find_binding (w_bindings W) (p_binding p) = Some b /\ b_soap b = Some bst /\
+    In op (b_ops b) /\ m = mk_method (w_tns W) bst (p_loc p) op.
+
+Definition good_methods W (ms : methods) : Prop :=
+  forall n m, dict_get n ms = Some m -> declared_method W m.
+Definition good_ports W (ps : list lport) : Prop :=
+  forall lp, In lp ps -> good_methods W (lp_methods lp).
+Definition good_services W (svcs : list lservice) : Prop :=
+  forall ls, In ls svcs -> good_ports W (ls_ports ls).
+
+Definition good_value W (v : value) : Prop :=
+  match v with
+  | VService => True
+  | VPorts ps => good_ports W ps
+  | VMethods ms => good_methods W ms
+  | VMethod m => declared_method W m
+  end.
+
+Lemma load_ports_good W s : forall ps l,
+  In s (w_services W) -> (forall p, In p ps -> In p (s_ports s)) ->
+  load_ports (w_tns W) (w_bindings W) ps = Some l -> good_ports W l.
+Proof.
+  induction ps as [|p r IH]; simpl; intros l Hs Hsub H.
+  - inversion H. intros lp [].
+  - destruct (find_binding (w_bindings W) (p_binding p)) as [b|] eqn:Eb; [|discriminate].
+    destruct (b_soap b) as [bst|] eqn:Es.
+    + destruct (load_ports (w_tns W) (w_bindings W) r) as [l'|] eqn:El; [|discriminate].
+      inversion H; subst l. intros lp [Hlp|Hlp].
+      * subst lp. simpl. intros n m Hg.
+        apply add_methods_get_in_l in Hg. destruct Hg as [[op [Hi [_ Hm]]]|Hg]; [|discriminate].
+        exists s, p, b, bst, op. repeat split; auto.
+      * apply (IH l' Hs (fun q Hq => Hsub q (or_intror Hq)) eq_refl lp Hlp).
+    + apply (IH l Hs (fun q Hq => Hsub q (or_intror Hq)) H).
+Qed.
+
+Lemma load_services_good W : forall ss l,
+  (forall s, In s ss -> In s (w_services W)) ->
+  load_services (w_tns W) (w_bindings W) ss = Some l -> good_services W l.
+Proof.
+  induction ss as [|s r IH]; simpl; intros l Hsub H.
+  - inversion H. intros ls [].
+  - destruct (load_ports (w_tns W) (w_bindings W) (s_ports s)) as [ps|] eqn:Ep; [|discriminate].
+    destruct (load_services (w_tns W) (w_bindings W) r) as [l'|] eqn:El; [|discriminate].
+    inversion H; subst l. intros ls [Hls|Hls].
+    + subst ls. simpl. apply (load_ports_good W s (s_ports s) ps); auto.
+    + apply (IH l' (fun q Hq => Hsub q (or_intror Hq)) eq_refl ls Hls).
+Qed.
+
+Lemma ss_find_good W svcs k ps : good_services W svcs -> ss_find svcs k = Ok ps -> good_ports W ps.
+Proof.
+  intros Hg H. destruct svcs as [|a l]; [discriminate|]. rewrite ss_find_cons_l in H.
+  destruct (sel ls_name (a :: l) k) as [s|] eqn:E; [|discriminate].
+  inversion H; subst ps. apply Hg. apply (sel_in _ _ _ _ E).
+Qed.
+
+Lemma ps_find_good W ports k ms : good_ports W ports -> ps_find ports k = Ok ms -> good_methods W ms.
+Proof.
+  intros Hg H. destruct ports as [|a l]; [discriminate|]. rewrite ps_find_cons_l in H.
+  destruct (sel lp_name (a :: l) k) as [p|] eqn:E; [|discriminate].
+  inversion H; subst ms. apply Hg. apply (sel_in _ _ _ _ E).
+Qed.
+
+Lemma ms_getitem_good W ms k m : good_methods W ms -> ms_getitem ms k = Ok m -> declared_method W m.
+Proof.
+  intros Hg H. destruct k as [z|n]; simpl in H; [discriminate|].
+  destruct (dict_get n ms) as [m'|] eqn:E; [|discriminate]. inversion H; subst. apply (Hg n). exact E.
+Qed.
+
+Lemma port_sel_good W o ports sub ms :
+  good_ports W ports -> port_sel o ports sub = Ok ms -> good_methods W ms.
+Proof.
+  intros Hg H. unfold port_sel, ps_dp in H.
+  destruct (opt_port o) as [dp|].
+  - destruct (ps_find ports dp) as [m|] eqn:E; simpl in H; [|discriminate].
+    inversion H; subst. apply (ps_find_good W ports dp); assumption.
+  - simpl in H. apply (ps_find_good W ports _ ms Hg H).
+Qed.
+
+Lemma ss_default_good W o svcs ps :
+  good_services W svcs -> ss_default_or_first o svcs = Ok ps -> good_ports W ps.
+Proof.
+  intros Hg H. unfold ss_default_or_first, ss_ds in H.
+  destruct (opt_service o) as [ds|].
+  - destruct (ss_find svcs ds) as [p|] eqn:E; simpl in H; [|discriminate].
+    inversion H; subst. apply (ss_find_good W svcs ds); assumption.
+  - simpl in H. apply (ss_find_good W svcs _ ps Hg H).
+Qed.
+
+Lemma ps_getattr_good W o ports n m :
+  good_ports W ports -> ps_getattr o ports n = Ok m -> declared_method W m.
+Proof.
+  intros Hg H. rewrite ps_getattr_port_sel_l in H.
+  destruct (port_sel o ports None) as [ms|] eqn:E; simpl in H; [|discriminate].
+  apply (ms_getitem_good W ms (KStr n)); [|exact H]. apply (port_sel_good W o ports None); assumption.
+Qed.
+
+Lemma eval_step_good W o svcs v st v' :
+  good_services W svcs -> good_value W v -> eval_step o svcs v st = Ok v' -> good_value W v'.
+Proof.
+  intros Hs Hv H. destruct v as [|ps|ms|m], st as [n|k]; simpl in H; try discriminate.
+  - rewrite ss_getattr_default_l in H.
+    destruct (ss_default_or_first o svcs) as [ps|] eqn:E; simpl in H; [|discriminate].
+    destruct (ps_getattr o ps n) as [m|] eqn:E2; simpl in H; [|discriminate].
+    inversion H; subst. simpl. apply (ps_getattr_good W o ps n); [|exact E2].
+    apply (ss_default_good W o svcs); assumption.
+  - unfold ss_getitem in H. destruct (Nat.eqb (length svcs) 1).
+    + destruct (ss_find svcs (KInt 0)) as [ps|] eqn:E; simpl in H; [|discriminate].
+      change (ps_getitem o ps k) with (port_sel o ps (Some k)) in H.
+      destruct (port_sel o ps (Some k)) as [ms|] eqn:E2; simpl in H; [|discriminate].
+      inversion H; subst. simpl. apply (port_sel_good W o ps (Some k)); [|exact E2].
+      apply (ss_find_good W svcs (KInt 0)); assumption.
+    + unfold ss_ds in H. destruct (opt_service o) as [ds|].
+      * destruct (ss_find svcs ds) as [ps|] eqn:E; simpl in H; [|discriminate].
+        change (ps_getitem o ps k) with (port_sel o ps (Some k)) in H.
+        destruct (port_sel o ps (Some k)) as [ms|] eqn:E2; simpl in H; [|discriminate].
+        inversion H; subst. simpl. apply (port_sel_good W o ps (Some k)); [|exact E2].
+        apply (ss_find_good W svcs ds); assumption.
+      * simpl in H. destruct (ss_find svcs k) as [ps|] eqn:E; simpl in H; [|discriminate].
+        inversion H; subst. simpl. apply (ss_find_good W svcs k); assumption.
+  - destruct (ps_getattr o ps n) as [m|] eqn:E2; simpl in H; [|discriminate].
+    inversion H; subst. simpl. apply (ps_getattr_good W o ps n); assumption.
+  - change (ps_getitem o ps k) with (port_sel o ps (Some k)) in H.
+    destruct (port_sel o ps (Some k)) as [ms|] eqn:E2; simpl in H; [|discriminate].
+    inversion H; subst. simpl. apply (port_sel_good W o ps (Some k)); assumption.
+  - unfold ms_getattr in H. destruct (ms_getitem ms (KStr n)) as [m|] eqn:E; simpl in H; [|discriminate].
+    inversion H; subst. simpl. apply (ms_getitem_good W ms (KStr n)); assumption.
+  - destruct (ms_getitem ms k) as [m|] eqn:E; simpl in H; [|discriminate].
+    inversion H; subst. simpl. apply (ms_getitem_good W ms k); assumption.
+Qed.
+
+Lemma eval_good W o svcs : forall e v v',
+  good_services W svcs -> good_value W v -> eval o svcs v e = Ok v' -> good_value W v'.
+Proof.
+  induction e as [|st r IH]; simpl; intros v v' Hs Hv H.
+  - inversion H; subst. exact Hv.
+  - destruct (eval_step o svcs v st) as [v1|] eqn:E; simpl in H; [|discriminate].
+    apply (IH v1 v' Hs); [|exact H]. apply (eval_step_good W o svcs v st); assumption.
+Qed.
+
+(* Every request that leaves is the request of a declared service / port /
+   operation triple: the port is a port of a declared service, its binding
+   is the SOAP binding it names, the operation is one of that binding; the
+   URL is that port's address (or the location option), the action and the
+   body root are that operation's.  For ALL WSDLs, options, expressions. *)
+Lemma routed_request_is_declared_l : forall W o e u a r,
+  run W o e = OSent u a r ->
+  exists s p b bst op,
+    In s (w_services W) /\ In p (s_ports s) /\
+    find_binding (w_bindings W) (p_binding p) = Some b /\ b_soap b = Some bst /\
+    In op (b_ops b) /\
+    u = match opt_location o with Some l => l | None => p_loc p end /\
+    a = match o_action op with Some x => x | None => 0%N end /\
+    r = body_root (w_tns W) (mk_method (w_tns W) bst (p_loc p) op).
+Proof.
+  intros W o e u a r H. unfold run in H.
+  destruct (load W) as [svcs|] eqn:El; [|discriminate].
+  assert (Hg : good_services W svcs)
+    by (apply (load_services_good W (w_services W) svcs (fun s Hs => Hs) El)).
+  destruct (eval o svcs VService e) as [v|] eqn:Ee; simpl in H; [|discriminate].
+  pose proof (eval_good W o svcs e VService v Hg I Ee) as Hv.
+  destruct v; try discriminate. simpl in Hv. inversion H; subst.
+  destruct Hv as [s [p [b [bst [op [H1 [H2 [H3 [H4 [H5 H6]]]]]]]]]].
+  exists s, p, b, bst, op. subst m. repeat split; auto.
+Qed.
+
+(* ------------------------------------------------------------------ *)
+(* options: default port, location, several clients                    *)
+(* ------------------------------------------------------------------ *)
+
+(* With a default port the port-level subscript is not even looked at. *)
+Lemma default_port_overrides_subscript_l : forall W o dp,
+  opt_port o = Some dp ->
+  (forall svcs ps k k', eval_step o svcs (VPorts ps) (Item k) = eval_step o svcs (VPorts ps) (Item k')) /\
+  (forall ks k k' rest,
+     opt_service o = None -> length (w_services W) <> 1%nat ->
+     run W o (Item ks :: Item k :: rest) = run W o (Item ks :: Item k' :: rest)) /\
+  (forall k k' rest,
+     opt_service o <> None \/ length (w_services W) = 1%nat ->
+     run W o (Item k :: rest) = run W o (Item k' :: rest)).
+Proof.
+  intros W o dp Hd.
+  assert (Hp : forall ps k k', ps_getitem o ps k = ps_getitem o ps k').
+  { intros. unfold ps_getitem, ps_dp. rewrite Hd.
+    destruct (ps_find ps dp); reflexivity. }
+  split; [|split].
+  - intros. simpl. rewrite (Hp ps k k'). reflexivity.
+  - intros ks k k' rest Ho Hlen. unfold run.
+    destruct (load W) as [svcs|] eqn:El; [|reflexivity]. f_equal.
+    simpl eval.
+    destruct (ss_getitem o svcs ks) as [v|ex] eqn:E; [|reflexivity].
+    simpl bind.
+    assert (Hv : exists ps, v = VPorts ps).
+    { unfold ss_getitem in E.
+      assert (Hl : length svcs = length (w_services W)).
+      { clear - El. unfold load in El. revert svcs El.
+        generalize (w_services W). induction l as [|s r IH]; simpl; intros svcs H.
+        - inversion H. reflexivity.
+        - destruct (load_ports _ _ _); [|discriminate].
+          destruct (load_services _ _ r) eqn:E; [|discriminate].
+          inversion H; subst. simpl. f_equal. apply IH. reflexivity. }
+      rewrite Hl in E. destruct (Nat.eqb_spec (length (w_services W)) 1); [contradiction|].
+      unfold ss_ds in E. rewrite Ho in E. simpl in E.
+      destruct (ss_find svcs ks); simpl in E; [|discriminate]. inversion E. eauto. }
+    destruct Hv as [ps Hv]. subst v. simpl eval_step. rewrite (Hp ps k k'). reflexivity.
+  - intros k k' rest Hc. unfold run.
+    destruct (load W) as [svcs|] eqn:El; [|reflexivity]. f_equal.
+    simpl eval. unfold ss_getitem.
+    assert (Hl : length svcs = length (w_services W)).
+    { clear - El. unfold load in El. revert svcs El.
+      generalize (w_services W). induction l as [|s r IH]; simpl; intros svcs H.
+      - inversion H. reflexivity.
+      - destruct (load_ports _ _ _); [|discriminate].
+        destruct (load_services _ _ r) eqn:E; [|discriminate].
+        inversion H; subst. simpl. f_equal. apply IH. reflexivity. }
+    rewrite Hl.
+    destruct (Nat.eqb (length (w_services W)) 1) eqn:E1.
+    + destruct (ss_find svcs (KInt 0)); [|reflexivity]. simpl. rewrite (Hp a k k'). reflexivity.
+    + destruct Hc as [Hc|Hc]; [|apply Nat.eqb_neq in E1; contradiction].
+      unfold ss_ds. destruct (opt_service o) as [ds|]; [|congruence].
+      destruct (ss_find svcs ds); [|reflexivity]. simpl. rewrite (Hp a k k'). reflexivity.
+Qed.
+
+(* The selectors read the service and port options only. *)
+Lemma eval_step_ext_l o o' svcs v st :
+  opt_service o = opt_service o' -> opt_port o = opt_port o' ->
+  eval_step o svcs v st = eval_step o' svcs v st.
+Proof.
+  intros Hs Hp.
+  destruct v, st; simpl; unfold ss_getattr, ss_getitem, ss_ds, ps_getattr, ps_getitem, ps_dp;
+    rewrite ?Hs, ?Hp; reflexivity.
+Qed.
+
+Lemma eval_ext_l o o' svcs : forall e v,
+  opt_service o = opt_service o' -> opt_port o = opt_port o' ->
+  eval o svcs v e = eval o' svcs v e.
+Proof.
+  induction e as [|st r IH]; simpl; intros v Hs Hp; [reflexivity|].
+  rewrite (eval_step_ext_l o o' svcs v st Hs Hp).
+  destruct (eval_step o' svcs v st); simpl; [apply IH; assumption|reflexivity].
+Qed.
+
+(* The location option changes the URL of the request and nothing else:
+   not the operation, not the action, not the body, not the exception.
+   Stated against the same client without the option. *)
+Lemma location_changes_url_only_l : forall W o v e,
+  match run W (set_location None o) e with
+  | OSent u a r =>
+      run W (set_location v o) e = OSent (match v with Some l => l | None => u end) a r
+  | x => run W (set_location v o) e = x
+  end.
+Proof.
+  intros W o v e. unfold run.
+  destruct (load W) as [svcs|]; [|reflexivity].
+  rewrite (eval_ext_l (set_location None o) o svcs e VService eq_refl eq_refl).
+  rewrite (eval_ext_l (set_location v o) o svcs e VService eq_refl eq_refl).
+  destruct (eval o svcs VService e) as [[|ps|ms|m]|ex]; simpl; reflexivity.
+Qed.
+
+(* several clients *)
+Lemma nth_upd_other (ws : world) : forall i j f, i <> j -> nth_error (upd ws i f) j = nth_error ws j.
+Proof.
+  induction ws as [|o r IH]; intros [|i] [|j] f H; simpl; try reflexivity; try congruence.
+  apply IH. congruence.
+Qed.
+
+Lemma nth_upd_same (ws : world) : forall i f o, nth_error ws i = Some o ->
+  nth_error (upd ws i f) i = Some (f o).
+Proof.
+  induction ws as [|o' r IH]; intros [|i] f o H; simpl in *; try discriminate.
+  - congruence.
+  - apply IH. exact H.
+Qed.
+
+(* Whatever is set on client i - location, service, port - no call made
+   through another client j changes. *)
+Lemma location_override_local_l : forall W ws i j f e,
+  i <> j -> world_call W (upd ws i f) j e = world_call W ws j e.
+Proof. intros. unfold world_call. rewrite nth_upd_other by assumption. reflexivity. Qed.
+
+(* ... and on client i itself the call is the one its own options give *)
+Lemma location_override_own_l : forall W ws i o v e,
+  nth_error ws i = Some o ->
+  world_call W (upd ws i (set_location v)) i e = run W (set_location v o) e.
+Proof. intros. unfold world_call. rewrite (nth_upd_same ws i _ o H). reflexivity. Qed.
+
+Lemma nth_app_len {A} (l : list A) x : nth_error (l ++ [x]) (length l) = Some x.
+Proof. induction l; simpl; auto. Qed.
+
+Lemma nth_app_lt {A} (l : list A) x : forall i, (i < length l)%nat -> nth_error (l ++ [x]) i = nth_error l i.
+Proof. induction l; simpl; intros [|i] H; try lia; auto. apply IHl. lia. Qed.
+
+(* clone(): the new client starts with the options the cloned one has at
+   that moment, and from then on the two are independent. *)
+Lemma clone_snapshot_independent_l : forall W ws c o e,
+  nth_error ws c = Some o ->
+  let ws1 := fst (world_step W ws (EClone c)) in
+  let k := length ws in
+  world_call W ws1 k e = world_call W ws c e /\
+  world_call W ws1 c e = world_call W ws c e /\
+  (forall f, world_call W (upd ws1 c f) k e = world_call W ws c e) /\
+  (forall f, world_call W (upd ws1 k f) c e = world_call W ws c e).
+Proof.
+  intros W ws c o e H. simpl. rewrite H.
+  assert (Hc : (c < length ws)%nat) by (apply nth_error_Some; congruence).
+  assert (Hne : c <> length ws) by lia.
+  assert (H1 : world_call W (ws ++ [o]) (length ws) e = world_call W ws c e).
+  { unfold world_call. rewrite nth_app_len, H. reflexivity. }
+  assert (H2 : world_call W (ws ++ [o]) c e = world_call W ws c e).
+  { unfold world_call. rewrite nth_app_lt by exact Hc. reflexivity. }
+  repeat split; auto.
+  - intro f. rewrite location_override_local_l by exact Hne. exact H1.
+  - intro f. rewrite location_override_local_l by congruence. exact H2.
+Qed.
+
+(* What a call does is a function of the WSDL, the options of the client it
+   is made through and the expression - not of when it is made or of what
+   happened on any client before. *)
+Lemma selection_deterministic_l : forall W ws ws' c c' e,
+  nth_error ws c = nth_error ws' c' -> world_call W ws c e = world_call W ws' c' e.
+Proof. intros. unfold world_call. rewrite H. reflexivity. Qed.
